@@ -1135,6 +1135,90 @@ def qa_compare(e1, e2, max_points=300000, depth=0):
                       "atoms": {v: show(it.exprs[v]) for v in it.exprs}})
 
 
+def evaluate_c(e, env):
+    """Floating-point complex evaluation of a closed form (witness search for forms with imaginary units, cos / sin / exp);
+    never used to *prove* equality, only to exhibit a point where two forms differ by far more than round-off."""
+    import cmath
+    op = e.op
+    if op == "const":
+        v = e.value
+        if isinstance(v, bool):
+            return complex(int(v))
+        if isinstance(v, Fraction):
+            return complex(float(v))
+        if isinstance(v, str) and v.endswith("j"):
+            return complex(v)
+        raise Inconclusive("constant %r" % (v,))
+    if op == "sym":
+        if e.args[0] == "pi" or e == PI:
+            return complex(math.pi)
+        if e.args[0] not in env:
+            raise Inconclusive("no value for %s" % e.args[0])
+        return complex(env[e.args[0]])
+    if op == "add":
+        return evaluate_c(e.args[0], env) + evaluate_c(e.args[1], env)
+    if op == "neg":
+        return -evaluate_c(e.args[0], env)
+    if op == "mul":
+        return evaluate_c(e.args[0], env) * evaluate_c(e.args[1], env)
+    if op == "truediv":
+        return evaluate_c(e.args[0], env) / evaluate_c(e.args[1], env)
+    if op == "pow":
+        return evaluate_c(e.args[0], env) ** evaluate_c(e.args[1], env)
+    if op in ("max", "min"):
+        vals = [evaluate_c(a, env).real for a in e.args]
+        return complex(max(vals) if op == "max" else min(vals))
+    if op == "cmp":
+        a, b = evaluate_c(e.args[1], env).real, evaluate_c(e.args[2], env).real
+        if e.args[0] not in _CMP:
+            raise Inconclusive("comparison %s" % e.args[0])
+        return complex(1.0 if _CMP[e.args[0]](a, b) else 0.0)
+    if op == "not":
+        return complex(0.0 if evaluate_c(e.args[0], env) != 0 else 1.0)
+    if op in ("and", "or"):
+        vals = [evaluate_c(a, env) != 0 for a in e.args]
+        return complex(1.0 if (all(vals) if op == "and" else any(vals)) else 0.0)
+    if op == "cond":
+        return evaluate_c(e.args[1] if evaluate_c(e.args[0], env) != 0 else e.args[2], env)
+    if op == "call":
+        name = e.args[0]
+        short = name.split(".")[-1] if isinstance(name, str) else name
+        if short in ("getitem",) or len(e.args) < 2:
+            raise Inconclusive("call %s" % name)
+        a = evaluate_c(e.args[1], env)
+        fns = {"exp": cmath.exp, "log": cmath.log, "sqrt": cmath.sqrt, "cos": cmath.cos, "sin": cmath.sin, "abs": lambda z: complex(abs(z)),
+               "conj": lambda z: z.conjugate(), "real": lambda z: complex(z.real), "imag": lambda z: complex(z.imag), "float": lambda z: z,
+               "int": lambda z: complex(math.trunc(z.real)), "factorial": lambda z: complex(math.factorial(int(round(z.real))))}
+        if short in fns and len(e.args) == 2:
+            return fns[short](a)
+        raise Inconclusive("call %s" % name)
+    raise Inconclusive("cannot evaluate %s" % op)
+
+
+def compare_c(e1, e2, domain, tol=1e-7):
+    """normal-form identity, else a floating-point complex witness (relative difference above ``tol``)"""
+    try:
+        if ratfunc(e1, True).equals(ratfunc(e2, True)):
+            return {"verdict": "equal", "how": "rational normal form"}
+    except Inconclusive:
+        pass
+    names = sorted(domain)
+    ok_pts = 0
+    for point in itertools.product(*[domain[n] for n in names]):
+        env = dict(zip(names, point))
+        try:
+            v1, v2 = evaluate_c(e1, env), evaluate_c(e2, env)
+        except (Inconclusive, ZeroDivisionError, OverflowError, ValueError):
+            continue
+        ok_pts += 1
+        if abs(v1 - v2) > tol * max(1.0, abs(v1), abs(v2)):
+            return {"verdict": "differ", "witness": {k: _show_val(v) if isinstance(v, Fraction) else v for k, v in env.items()},
+                    "values": ("%.6g%+.6gj" % (v1.real, v1.imag), "%.6g%+.6gj" % (v2.real, v2.imag))}
+    if ok_pts:
+        return {"verdict": "equal-on-grid", "points": ok_pts}
+    return {"verdict": "unknown", "reason": "forms not identical and not evaluable"}
+
+
 def compile_int(e):
     """Python source of an integer-valued closed form over integer symbols (None when the form leaves the fragment
     + - * // % max min comparisons and/or/not cond).  Floor division and modulo have Python's (= the IR's) semantics."""
